@@ -8,7 +8,7 @@ from props.C03 import float_tie
 THEOREMS = ['C01_structure', 'C01_row', 'C01_total', 'C01_rows', 'C01_degenerate', 'C01_labelling_total', 'C01_three_oscillations', 'C01_pipeline', 'C01_routing']
 RULE = ("generated signals of all families (sinusoidal, asymmetric, bursty, 1/f, sums, chirps, quantised, clipped, plateaus, zeroed stretches, DC offsets, 6 decades of scale) x "
         "fs x band x filter length (default / n_cycles 2..5 / n_seconds) x boundary x pad x centre extremum x burst method (with valid threshold / burst options) x return_samples, "
-        "through compute_features and Bycycle.fit; judge: the Lean predicate wellFormed on the implementation's sample columns, row count = kept peaks - 1 from the Lean "
+        "through compute_features and Bycycle.fit; for the consistency method the WHOLE table is also handed to the composed Lean model pipelineCycles: its sample columns are C01's correspondence, the agreement of its shape / burst-feature / label projections (the correspondence of C04 / C05 / C06) is recorded; judge: the Lean predicate wellFormed on the implementation's sample columns, row count = kept peaks - 1 from the Lean "
         "specification, and 'did not raise' whenever the specification keeps >= 2 peaks; distinct = distinct (signal, option set); non-trivial = a table with >= 2 rows")
 ASSUMPTIONS = ["the band-pass filter is recomputed by the harness with neurodsp as the property defines (zero padding of ceil(filt_len/2)); only its sign pattern is shipped",
                "inputs the neurodsp filter refuses (filter longer than signal) are skipped and counted"]
@@ -113,6 +113,7 @@ def evaluate(ctx, cases):
         r = {}
         try:
             df = _call(c)
+            r['df'] = df
             r['rows'] = implutil.sample_rows(df, c['center'])
             r['n'] = len(df)
             r['has_burst'] = 'is_burst' in df.columns
@@ -134,6 +135,15 @@ def evaluate(ctx, cases):
         if p is not None and 'rows' in r:
             wf_reqs.append('cyclepoints.wf %s %d %d' % (implutil.enc_rows(r['rows']), len(p[0]), p[1])); idx.append(i)
     wf = dict(zip(idx, proto.run_driver(wf_reqs)))
+    # END TO END: the COMPOSED model (Pipeline.lean, `pipelineCycles`: cyclepoints -> shape -> burst features -> labels; the object of C01_pipeline, C09_mirror,
+    # C10_amplitude, C14_fit_is_pipeline) against the whole table of compute_features(burst_method='cycles')
+    pipe_reqs, pidx = [], []
+    for i, (c, p, r) in enumerate(zip(cases, pre, impl)):
+        if p is None or 'df' not in r or c['method'] != 'cycles' or r['n'] == 0: continue
+        rq = implutil.pipeline_request(proto.hex2arr(c['sig']), c['fs'], c['f_range'], c['center'], c['fk'], c['boundary'], c['pad'], c['th'])
+        if rq is None: continue
+        pipe_reqs.append(rq); pidx.append(i)
+    pipe = dict(zip(pidx, proto.run_driver(pipe_reqs)))
     out = []
     for i, (c, p, r) in enumerate(zip(cases, pre, impl)):
         key = hash(repr({k: v for k, v in c.items() if k != 'family'}))
@@ -172,6 +182,14 @@ def evaluate(ctx, cases):
             if not corr_ok and model[0] == 'ok':
                 pk = [row[0] for row in r['rows']]; tr = [row[4] for row in r['rows']] + ([r['rows'][-1][5]] if r['rows'] else [])
                 tie = float_tie(p[0], pk, tr)
+            if i in pipe and corr_ok:
+                # C01's projection of the composed model is the SAMPLE columns (a break there is a correspondence break of C01); how the other projections fare is
+                # recorded in the evidence - they are the correspondence of C04 (shape), C05 (burst features), C06 (labels), whose checks make the same comparison
+                pj = implutil.pipeline_projections(pipe[i], r['df'], c['center'], c['th'])
+                if pj['samples'] is not None:
+                    corr_ok = False; info['pipeline'] = pj['samples']
+                for k_, v_ in pj.items():
+                    ctx.hist('pipeline ' + k_, 'agrees' if v_ is None else ('float tie' if v_.startswith('tie:') else 'differs'))
             ctx.hist('outcome', 'table')
         ctx.hist('options', '%s/%s/%s' % (c['center'], c['method'], 'n_seconds' if c['fk'] and 'n_seconds' in c['fk'] else 'n_cycles')); ctx.hist('presentation', (c.get('pres') or 'array') + ('+numpy scalar options' if c.get('npopt') else ''))
         out.append(Result(c, judge_ok=judge_ok, corr_ok=corr_ok, sig=key, nontrivial=('rows' in r and r['n'] >= 2), float_tie=tie, info=info))
